@@ -26,7 +26,7 @@ Definition text_est (min_wrap : N) (t : text) (img : bool) : est :=
 Definition ol_prefix_size (d : deco) (start : Z) (n : nat) : res N :=
   let sn := isat64 (start + Z.of_nat n) in
   let mx := isat64 (sn - 1) in
-  Ok (N.max (utf8_len (d_ol_prefix d start)) (utf8_len (d_ol_prefix d mx))).
+  Ok (N.max (swidth (d_ol_prefix d start)) (swidth (d_ol_prefix d mx))).
 
 Fixpoint upd_range {A} (l : list A) (from len : nat) (f : A -> A) : option (list A) :=
   match len with
@@ -66,7 +66,7 @@ Section Est.
     | IBlockQuote v => prefixed v (swidth (d_quote_prefix d))
     | IUl v => prefixed v (swidth (d_ul_prefix d))
     | IOl i v => do ps <- ol_prefix_size d i (length v); prefixed v ps
-    | IHeader level v => prefixed v (utf8_len (d_header_prefix d level))
+    | IHeader level v => prefixed v (swidth (d_header_prefix d level))
     | IBreak => Ok (mkest 1 1 0)
     | ITable rows ncols =>
       (* the precalc pass computes every cell-content estimate first *)
@@ -170,9 +170,11 @@ Definition sup_digits (cs : list rnode) : option text :=
   | _ => None
   end.
 
-(* format!("{: <width$}", s): pad with spaces to `width` characters *)
+(* pad with spaces to `width` characters / columns *)
 Definition pad_chars (s : text) (width : N) : text :=
   s ++ repeat_chr (spacel L_prefix) (N.to_nat width - length s).
+Definition pad_width (s : text) (width : N) : text :=
+  s ++ repeat_chr (spacel L_prefix) (N.to_nat (width - swidth s)).
 
 (* ---- table layout (render_table_tree) ---- *)
 Definition col_width_of (width tot_size : N) (sz : est) : N :=
@@ -299,7 +301,7 @@ Section Render.
     | IHeader level cs =>
       let prefix := d_header_prefix d level in
       let prefix_size := e_prefix sz in
-      if negb (utf8_len prefix =? prefix_size) then Panic 20 else
+      if negb (swidth prefix =? prefix_size) then Panic 20 else
       let inner_width := e_min sz - prefix_size in
       do tp <- top st;
       do w <- width_minus tp prefix_size inner_width;
@@ -316,7 +318,7 @@ Section Render.
       do st3 <- with_top st2 new_line; fin st3
     | IBlockQuote cs =>
       let prefix := d_quote_prefix d in
-      let plen := utf8_len prefix in
+      let plen := swidth prefix in
       if negb (e_prefix sz =? plen) then Panic 21 else
       do inner_width <- usub 21 (e_min sz) plen;
       do tp <- top st;
@@ -330,7 +332,7 @@ Section Render.
       do st6 <- with_top' st5 end_block; fin st6
     | IUl items =>
       let prefix := d_ul_prefix d in
-      let plen := utf8_len prefix in
+      let plen := swidth prefix in
       let indent := repeat_chr (spacel L_prefix) (N.to_nat plen) in
       do st1 <- fold_left
            (fun acc item =>
@@ -347,7 +349,7 @@ Section Render.
     | IOl start items =>
       let sn := isat64 (start + Z.of_nat (length items)) in
       let max_number := isat64 (sn - 1) in
-      let prefix_width := N.max (utf8_len (d_ol_prefix d start)) (utf8_len (d_ol_prefix d max_number)) in
+      let prefix_width := N.max (swidth (d_ol_prefix d start)) (swidth (d_ol_prefix d max_number)) in
       let prefixn := pad_chars [] prefix_width in
       do r <- fold_left
            (fun acc item =>
@@ -359,7 +361,7 @@ Section Render.
               do s2 <- render_node item (push_sub s (new_sub_renderer tp w));
               do pp <- pop_sub s2;
               let '(sub, s3) := pp in
-              let prefix1 := pad_chars (d_ol_prefix d i) prefix_width in
+              let prefix1 := pad_width (d_ol_prefix d i) prefix_width in
               do s4 <- with_top s3 (fun t => append_subrender t sub prefix1 prefixn);
               Ok (s4, isat64 (i + 1)))
            items (Ok (st, start));
